@@ -22,6 +22,8 @@ def task(ck, t):
                 D.check_xdecl(ck, run.it, fnn, run.root, run.N, extra_facts=run.env.facts)
             if run.independent and run.result is not None:
                 D.check_independent(ck, run.it, run.env, run.result, run.root, fnn)
+            # what a call decodes must not depend on earlier calls either: no decoder writes into process-wide objects
+            D.check_no_shared_writes(ck, run.it, fnn)
     except Unsupported as e:
         ck.unknown("X-DECL", str(t), "target group analysed", f"unsupported construct: {e}")
 
@@ -40,7 +42,8 @@ def run(ck):
         "object mentions len(buffer) or an open-ended slice of the buffer (guards may; values may not). Refutations carry a "
         "concrete octet string. Per-format extent equalities (file data ends at N-2*crc, timestamp/source data/CRC extents, TFDZ "
         "extent, reported length == N) are decided in C02, C03, C06, C07, C08, C15, C17 and are not repeated here.")
-    for r, t in (("X-DECL", "every read ends at or before the declared length"), ("X-IND", "decoded state independent of len(buffer) / open slices")):
+    for r, t in (("X-DECL", "every read ends at or before the declared length"), ("X-IND", "decoded state independent of len(buffer) / open slices"),
+                 ("A-ALIAS", "no decoder stores into a module-level object (nothing is carried from one call to the next)")):
         ck.rule(r, t)
     ck.trusted += ["the read log of the interpreter (every index, slice and struct.unpack on an octet string is logged)"]
     ck.assumptions += ["reads inside summarised loops whose bound needs an inductive invariant are listed as undecided"]
